@@ -13,8 +13,12 @@ RUST_TY = {'F64': 'f64', 'F32': 'f32', 'U32': 'u32', 'I32': 'i32', 'U64': 'u64',
 CONCRETE = ['F64', 'F32', 'U32', 'I32', 'U64', 'I64', 'Bool']
 
 
+TYPE_ALIASES = ['f32', 'i32', 'u32', 'bool', 'f64', 'vec3<f32>', 'vec2<u32>', 'mat2x2<f32>', 'array<f32, 2>', 'vec4<bool>']
+
+
 def template():
-    return 'const BEFORE: u32 = 7u;\nconst HOLE: f32 = 1.0;\nconst AFTER: i32 = -3;\n@fragment fn main() {}\n'
+    al = ''.join(f'alias T{i} = {t};\n' for i, t in enumerate(TYPE_ALIASES))
+    return al + 'const BEFORE: u32 = 7u;\nconst HOLE: f32 = 1.0;\nconst AFTER: i32 = -3;\n@fragment fn main() {}\n'
 
 
 def decode_consts(toks):
@@ -92,12 +96,22 @@ def run(ctx):
     payload = {'F64': f64p, 'F32': f32p, 'U32': u32p, 'I32': i32p, 'U64': u64p, 'I64': i64p, 'Bool': bp, 'AbstractInt': ai,
                'AbstractFloat': af}
     lit = c.sym_enum('Literal', ldisc, {k: [v] for k, v in payload.items()})
-    others = ['Constant', 'ZeroValue', 'Compose', 'Splat', 'Binary']
-    gex[init] = c.sym_enum('Expression', edisc, dict({'Literal': [lit]}, **{o: [Opaque(o)] * 3 for o in others}))
+    others = ['Constant', 'Compose', 'Splat', 'Binary']
+    zty = z3.BitVec('zero_value_type', 32)
+    mj = S.dump(src)['module']
+    n_types = len(mj['types'])
+    gex[init] = c.sym_enum('Expression', edisc, dict({'Literal': [lit], 'ZeroValue': [zty]}, **{o: [Opaque(o)] * 3 for o in others}))
     c.set(hole, 'name', Agg('Option', {'Some': ['HOLE'], 'None': []}, disc=z3.If(named, z3.BitVecVal(1, 64), z3.BitVecVal(0, 64))))
     finite = z3.And(z3.Not(z3.fpIsNaN(f64p)), z3.Not(z3.fpIsInf(f64p)), z3.Not(z3.fpIsNaN(f32p)), z3.Not(z3.fpIsInf(f32p)),
                     z3.Not(z3.fpIsNaN(af)), z3.Not(z3.fpIsInf(af)))
-    assume = [z3.Or(edisc == X['Literal'], *[edisc == X[o] for o in others]), z3.ULT(ldisc, len(L))]
+    assume = [z3.Or(edisc == X['Literal'], edisc == X['ZeroValue'], *[edisc == X[o] for o in others]), z3.ULT(ldisc, len(L)), z3.ULT(zty, n_types)]
+    is_zero = edisc == X['ZeroValue']
+    # per type handle: the Rust type a zero value of that type must be exported with (None = not a scalar: must be skipped)
+    ZERO_TY = {}
+    for h_, t_ in enumerate(mj['types']):
+        sc = t_['inner'].get('Scalar')
+        ZERO_TY[h_] = {('Float', 4): 'f32', ('Float', 8): 'f64', ('Sint', 4): 'i32', ('Uint', 4): 'u32', ('Bool', 1): 'bool',
+                       ('Sint', 8): 'i64', ('Uint', 8): 'u64'}.get((sc['kind'], sc['width'])) if sc else None
     ctx.assumptions += ['float payloads finite (WGSL constant evaluation never yields NaN/inf); non-finite payloads are explored '
                         'separately and must only ever panic, never emit',
                         'the decimal text proc_macro2 gives a numeric literal round-trips through rustc (Display of Rust numbers is '
@@ -125,7 +139,8 @@ def run(ctx):
         mid = flat[1:-1]
         # which variant is this path?  (the path condition fixes it)
         emitted = len(mid) == 1
-        conds = [z3.BoolVal(emitted) == z3.And(named, is_lit)]
+        zero_scalar = z3.Or([zty == h_ for h_, t_ in ZERO_TY.items() if t_ is not None])
+        conds = [z3.BoolVal(emitted) == z3.And(named, z3.Or(is_lit, z3.And(is_zero, zero_scalar)))]
         if emitted:
             name, ty, val, vis = mid[0]
             ok_shape = name == 'HOLE' and vis and len(val) == 1 and (val[0].k in ('lit', 'ident'))
@@ -146,7 +161,18 @@ def run(ctx):
                             good = z3.fpToIEEEBV(lv) == z3.fpToIEEEBV(p) if is_sym(lv) else z3.BoolVal(False)
                         else:
                             good = (lv == p) if is_sym(lv) else z3.BoolVal(False)
-                    per_variant.append(z3.Implies(ldisc == L[vname], good))
+                    per_variant.append(z3.Implies(z3.And(is_lit, ldisc == L[vname]), good))
+                # zero values: `const Z = i32();` is a scalar constant whose value is zero
+                for h_, rt in ZERO_TY.items():
+                    if rt is None:
+                        continue
+                    if val[0].k == 'ident':
+                        goodz = z3.BoolVal(rt == 'bool' and ty == 'bool' and val[0].v == 'false')
+                    else:
+                        lk, lv = val[0].v
+                        zero_ok = (not is_sym(lv)) and lv == 0 and isinstance(lv, (int, float)) and not (isinstance(lv, float) and str(lv).startswith('-'))
+                        goodz = z3.BoolVal(rt != 'bool' and lk == rt and ty == rt and bool(zero_ok))
+                    per_variant.append(z3.Implies(z3.And(is_zero, zty == h_), goodz))
                 conds.append(z3.And(per_variant))
         concrete_variant = z3.Or([ldisc == L[v] for v in CONCRETE])
         bad = z3.And(z3.Implies(is_lit, concrete_variant), finite, z3.Not(z3.And(conds)))
@@ -155,6 +181,17 @@ def run(ctx):
             continue
         lv = model_value(m, ldisc)
         vname = next(k for k, v in L.items() if v == lv)
+        if z3.is_true(m.eval(is_zero, model_completion=True)):
+            zt = model_value(m, zty)
+            spelled = wgsl_of_type(mj, zt)
+            key = f'C15/zero-value/{spelled}'
+            seen[key] = seen.get(key, 0) + 1
+            if seen[key] > 1:
+                continue
+            rep, detail = replay_zero(ctx, spelled, ZERO_TY.get(zt), model_value(m, named))
+            ctx.report(key, f'named constant `const HOLE = {spelled}();`: emitted `{" | ".join(T.text(T.items(ts.toks)[0].toks) for ts in out.items[1:-1]) or "nothing"}`',
+                       detail, rep, detail)
+            continue
         key = f'C15/{vname}'
         seen[key] = seen.get(key, 0) + 1
         if seen[key] > 1:
@@ -167,6 +204,47 @@ def run(ctx):
     native(ctx)
     ctx.differential(src, {})
     ctx.extra['violations_by_variant'] = seen
+
+
+def wgsl_of_type(mj, h):
+    t = mj['types'][h]
+    inner = t['inner']
+    sc = inner.get('Scalar')
+    names = {('Float', 4): 'f32', ('Float', 8): 'f64', ('Sint', 4): 'i32', ('Uint', 4): 'u32', ('Bool', 1): 'bool'}
+    if sc:
+        return names.get((sc['kind'], sc['width']))
+    if 'Vector' in inner:
+        v = inner['Vector']
+        return f"vec{ {'Bi': 2, 'Tri': 3, 'Quad': 4}[v['size']] }<{names[(v['scalar']['kind'], v['scalar']['width'])]}>"
+    if 'Matrix' in inner:
+        m_ = inner['Matrix']
+        n = {'Bi': 2, 'Tri': 3, 'Quad': 4}
+        return f"mat{n[m_['columns']]}x{n[m_['rows']]}<f32>"
+    if 'Array' in inner:
+        return 'array<f32, 2>'
+    return None
+
+
+def replay_zero(ctx, spelled, rust_ty, named):
+    if spelled is None or not named:
+        return False, {'note': 'no WGSL spelling'}
+    src = f'const BEFORE: u32 = 7u;\nconst HOLE = {spelled}();\nconst AFTER: i32 = -3;\n@fragment fn main() {{}}\n'
+    kind, toks, _ = ctx.gen_tokens(src, {})
+    det = {'wgsl': src, 'expected': f'pub const HOLE: {rust_ty} = 0;' if rust_ty else 'not exported (not a scalar)'}
+    if kind != 'ok':
+        det['real'] = f'{kind}: {toks}'
+        return kind == 'panic', det
+    cs = [x for x in decode_consts(toks) if x[0] == 'HOLE']
+    det['real'] = [f'pub const HOLE: {x[1]} = {T.text(x[2])};' for x in cs] or 'not exported'
+    if rust_ty is None:
+        return len(cs) != 0, det
+    if len(cs) != 1 or cs[0][1] != rust_ty:
+        return True, det
+    txt = ''.join(T.text([t]) for t in cs[0][2]).replace(' ', '')
+    if rust_ty == 'bool':
+        return txt != 'false', det
+    sfx, v = parse_lit(txt)
+    return not (sfx == rust_ty and v == 0), det
 
 
 def native(ctx):
@@ -199,6 +277,13 @@ def native(ctx):
             else:
                 ctx.replayed_ok += 1
     ctx.sample({'payloads replayed natively (extremes + seeded random)': n})
+    rust = {'f32': 'f32', 'i32': 'i32', 'u32': 'u32', 'bool': 'bool', 'f64': 'f64'}
+    for t in TYPE_ALIASES:
+        rep, det = replay_zero(ctx, t, rust.get(t), True)
+        if rep:
+            ctx.report(f'C15/zero-value/{t}', f'`const HOLE = {t}();` is exported as {det.get("real")}, expected {det.get("expected")}', det, True, det)
+        else:
+            ctx.replayed_ok += 1
 
 
 def native_const(ctx, vname, bits):
